@@ -317,17 +317,24 @@ func (b *txBuilder) data(spec *TxSpec, sender types.Address) (interface{}, map[s
 		owners := map[string]interface{}{}
 		ol := list(a["owners"])
 		wl := list(a["weights"])
+		// the two lists are sent exactly as given: they may differ in length (more owners than weights, or the reverse)
 		for i, o := range ol {
 			as = append(as, b.n.Addr(str(o)))
-			w := uint32(1)
+			w := uint32(0)
 			if i < len(wl) {
 				w = uint32(num(wl[i]))
+			} else if a["weights"] == nil {
+				w = 1
 			}
-			ws = append(ws, w)
 			owners[str(o)] = w
 		}
-		for i := len(ol); i < len(wl); i++ {
+		for i := range wl {
 			ws = append(ws, uint32(num(wl[i])))
+		}
+		if a["weights"] == nil {
+			for range ol {
+				ws = append(ws, 1)
+			}
 		}
 		abs["owners"] = owners
 		abs["threshold"] = num(a["threshold"])
